@@ -97,6 +97,39 @@ def iqDispatch (tbl : Table) (typ : String) (n : Name) : IqOutcome :=
   | some p => .handler p
   | none => if typ == "error" || typ == "result" then .nothing else .fallback
 
+/-! ### `iqRouter`: the payload handed to an IQ handler -/
+
+/-- whitespace-only character data (`decl.TrimLeftSpace`) -/
+def isSpaceTok : Tok → Bool
+  | .chars s => s.all fun c => c == ' ' || c == '\n' || c == '\r' || c == '\t'
+  | _ => false
+
+inductive IqRes
+  /-- a registered handler runs: its pattern, the payload start element's name it is given,
+  the tokens it reads -/
+  | handler (p : Pattern) (payload : Name) (view : List Tok)
+  | fallback | nothing
+  /-- `iqRouter` returns an error without invoking any handler -/
+  | err
+  deriving DecidableEq, Repr
+
+/-- `iqRouter` on a whole IQ stanza (start tag first, end tag last) of type `typ`; the invoked
+handler calls `Token` `c` times: it is given the first child element's start tag (whitespace
+before it skipped) and reads what follows it inside the IQ, never the IQ's end tag -/
+def iqRoute (tbl : Table) (typ : String) (stanza : List Tok) (c : Nat) : IqRes :=
+  match stanza with
+  | [] => .err
+  | _ :: body =>
+    let out (n : Name) (rest : List Tok) : IqRes :=
+      match iqDispatch tbl typ n with
+      | .handler p => .handler p n (rest.take c)
+      | .fallback => .fallback
+      | .nothing => .nothing
+    match body.dropLast.dropWhile isSpaceTok with
+    | [] => if typ == "result" then out ⟨"", ""⟩ [] else .err
+    | .start n _ :: rest => out n rest
+    | _ => .err
+
 /-! ### `forChildren`: per-child dispatch with the replay buffer -/
 
 /-- a `bufReader` over the stanza: tokens already read (`buf`) and tokens still in the
@@ -164,6 +197,147 @@ def forChildren (tbl : Table) (k : Kind) (typ : String) (stanza : List Tok) (con
       | none => calls ++ [{ pat := none, view := [] }]
       | some p => calls ++ [{ pat := some p, view := stanza.take (cons.headD 0) }]
     else calls
+
+/-! ### `bufReader.Token` call by call, over a reader with either end-of-input framing
+
+`encoding/xml` lets a `TokenReader` return its last token together with `io.EOF` or report
+`io.EOF` on a separate call; `bufReader` must buffer the token in both cases. -/
+
+/-- how the reader underneath the multiplexer reports the end of its input -/
+inductive Framing
+  | sep   -- `io.EOF` on a separate call after the last token
+  | eof   -- the last token is returned together with `io.EOF`
+  deriving DecidableEq, Repr
+
+/-- one `Token` call on the underlying reader: the token (if any), whether a non-nil error
+comes with it, and the input left -/
+def srcToken (f : Framing) : List Tok → Option Tok × Bool × List Tok
+  | [] => (none, true, [])
+  | t :: ts => (some t, ts.isEmpty && f == .eof, ts)
+
+/-- a `bufReader`: `buf`, `offset`, and what the underlying reader `r` still holds -/
+structure BufR where
+  buf : List Tok
+  offset : Nat
+  rest : List Tok
+  deriving Repr
+
+/-- `bufReader.Token`: replay from the buffer while `offset < len(buf)`, otherwise read the
+underlying reader and retain the token whenever one is returned, with or without an error -/
+def BufR.token (f : Framing) (r : BufR) : Option Tok × Bool × BufR :=
+  match r.buf[r.offset]? with
+  | some t => (some t, false, { r with offset := r.offset + 1 })
+  | none =>
+    match srcToken f r.rest with
+    | (some t, e, rest') => (some t, e, { buf := r.buf ++ [t], offset := r.offset + 1, rest := rest' })
+    | (none, e, rest') => (none, e, { r with rest := rest' })
+
+/-- a handler that calls `Token` up to `c` times and stops at the first error; it keeps every
+token it was given -/
+def BufR.readN (f : Framing) : Nat → BufR → List Tok × BufR
+  | 0, r => ([], r)
+  | c + 1, r =>
+    match r.token f with
+    | (some t, false, r') => let (ts, r'') := BufR.readN f c r'; (t :: ts, r'')
+    | (some t, true, r') => ([t], r')
+    | (none, _, r') => ([], r')
+
+/-- `BR.handlerRead` computed call by call: a fresh `bufReader{r: t, buf: b.buf}` (offset 0)
+read `c` times over a reader of framing `f`; the buffer is handed back afterwards -/
+def BR.stepRead (f : Framing) (b : BR) (c : Nat) : List Tok × BR :=
+  let (ts, r) := BufR.readN f c { buf := b.buf, offset := 0, rest := b.rest }
+  (ts, { buf := r.buf, rest := r.rest })
+
+/-- `dispatchChildren` with the handlers' reads computed by `read` -/
+def dispatchChildrenG (read : BR → Nat → List Tok × BR) (tbl : Table) (k : Kind) (typ : String) :
+    List (Nat × Name) → List Nat → BR → List Call × BR
+  | [], _, b => ([], b)
+  | (pos, n) :: cs, cons, b =>
+    let b1 := b.advance (pos + 1)
+    match lookup tbl k typ n with
+    | none =>
+      let (calls, b3) := dispatchChildrenG read tbl k typ cs cons b1
+      ({ pat := none, view := [] } :: calls, b3)
+    | some p =>
+      let (view, b2) := read b1 (cons.headD 0)
+      let (calls, b3) := dispatchChildrenG read tbl k typ cs cons.tail b2
+      ({ pat := some p, view := view } :: calls, b3)
+
+/-- `forChildren` over a reader of framing `f`, every handler read computed call by call -/
+def forChildrenF (f : Framing) (tbl : Table) (k : Kind) (typ : String) (stanza : List Tok) (cons : List Nat) : List Call :=
+  match stanza with
+  | [] => []
+  | start :: body =>
+    let cs := children stanza
+    let (calls, b) := dispatchChildrenG (BR.stepRead f) tbl k typ cs cons { buf := [start], rest := body }
+    -- `len(r.buf) == 2` after the iterator has been drained (`defer iterator.Close()` runs
+    -- later, the iterator's loop has read everything)
+    let b' := b.advance stanza.length
+    if b'.buf.length == 2 then
+      match lookup tbl k typ ⟨"", ""⟩ with
+      | none => calls ++ [{ pat := none, view := [] }]
+      | some p => calls ++ [{ pat := some p, view := (BR.stepRead f b' (cons.headD 0)).1 }]
+    else calls
+
+/-- handler errors are collected, the loop goes on: the ordinals (among the registered
+handlers that ran) of the calls that failed, as reported by the returned `multiErr` -/
+def failedCalls (calls : List Call) (errs : List Nat) : List Nat :=
+  (List.range (calls.filter fun c => c.pat.isSome).length).filter fun i => errs.contains i
+
+/-! ### the tables probed on the real code (`harness facts C14`)
+
+The same finite tables computed by the model; `Props/C14.lean` proves them equal to the ones the
+real options and lookups produce. -/
+
+/-- the type universe of the probe: the declared constants of each kind, the empty type, an
+unknown type and a case variant -/
+def probeTypes : Kind → List String
+  | .top => [""]
+  | .iq => ["get", "set", "result", "error", "", "xx", "GET"]
+  | .msg => ["normal", "chat", "error", "groupchat", "headline", "", "xx", "Chat"]
+  | .pres => ["", "unavailable", "subscribe", "probe", "error", "xx", "Unavailable"]
+
+def probeName : Name := ⟨"urn:a", "x"⟩
+
+/-- is the bare wildcard of type `t1` found by the lookup of type `t2`; is the exact name of
+type `t1`; is the same name accepted for `t2` after `t1` -/
+structure TypeRow where
+  kind : Kind
+  t1 : String
+  t2 : String
+  wild : Bool
+  exact : Bool
+  second : Bool
+  deriving DecidableEq, Repr
+
+def typeRow (k : Kind) (t1 t2 : String) : TypeRow :=
+  { kind := k, t1 := t1, t2 := t2,
+    wild := (lookup [⟨k, t1, ⟨"", ""⟩⟩] k t2 probeName).isSome,
+    exact := (lookup [⟨k, t1, probeName⟩] k t2 probeName).isSome,
+    second := ((register [] ⟨k, t1, probeName⟩ false).bind fun t => register t ⟨k, t2, probeName⟩ false).isSome }
+
+def typeTableModel : List TypeRow :=
+  [Kind.iq, Kind.msg, Kind.pres].flatMap fun k =>
+    (probeTypes k).flatMap fun t1 => (probeTypes k).map fun t2 => typeRow k t1 t2
+
+structure CascadeRow where
+  kind : Kind
+  typ : String
+  mask : Nat
+  hit : Option Pattern
+  deriving DecidableEq, Repr
+
+/-- the table holding the shapes of `probeName` selected by `mask` (1 exact, 2 local name
+only, 4 namespace only, 8 wildcard), registered in descending order -/
+def maskTable (k : Kind) (typ : String) (mask : Nat) : Table :=
+  (if mask.testBit 3 then [(⟨k, typ, ⟨"", ""⟩⟩ : Pattern)] else []) ++
+  (if mask.testBit 2 then [⟨k, typ, ⟨probeName.space, ""⟩⟩] else []) ++
+  (if mask.testBit 1 then [⟨k, typ, ⟨"", probeName.loc⟩⟩] else []) ++
+  (if mask.testBit 0 then [⟨k, typ, probeName⟩] else [])
+
+def cascadeTableModel : List CascadeRow :=
+  [(Kind.top, "", 8), (Kind.iq, "set", 16), (Kind.msg, "chat", 16), (Kind.pres, "unavailable", 16)].flatMap
+    fun (k, typ, n) => (List.range n).map fun mask => ⟨k, typ, mask, lookup (maskTable k typ mask) k typ probeName⟩
 
 /-! ### histories on one multiplexer
 
